@@ -97,6 +97,7 @@ def judge_artefact(E0, how, pretty, artefact, pkg, plain_flat=None):
             # plain flat export: same element structure, content inclusion (images are replaced
             # wholesale by their payload)
             out += [(m, d, None) for m, d in DL.flat_structure_issues(E0, artefact)]
+            out += [(m, d, None) for m, d in DL.flat_payload_issues(E0, artefact)]
             have = set(flat)
             for name in ("styles.xml", "content.xml"):
                 if name in E0:
@@ -233,6 +234,18 @@ def run(ctx, res):
                 if v:
                     m, d, fid = v[0]
                     res.violation(f"{m}", dict(d, pair=f"{a}>{b}"), {"case": case}, known=fid)
+    # pictures around and beyond 64 KiB, in every configuration
+    for k, size in enumerate([65535, 65536, 65537, 98304, 200000]):
+        i += 1
+        if not ctx.mine(i):
+            continue
+        for cfg in CONFIGS:
+            spec = {"type": "text", "seed": 7 + k, "paras": [{"h": False, "pieces": ["text"]}], "table": False, "image": True, "image_twice": k % 2 == 0, "big_image": size}
+            case = {"source": {"kind": "generated", "spec": spec}, "saves": [cfg]}
+            v = run_case(case, res)
+            if v:
+                m, d, fid = v[0]
+                res.violation(m, dict(d, picture_size=size), {"case": case}, known=fid)
     for c in range(CASES[ctx.tier]):
         rng = ctx.rng(c)
         saves = [rng.choice(CONFIGS) for _ in range(rng.randint(1, 3))]
